@@ -158,7 +158,8 @@ def is_plain(v):
     if isinstance(v, list):
         return all(is_plain(x) for x in v)
     if isinstance(v, dict):
-        return all(is_plain(x) for x in v.values())
+        # the DSL's own markers as keys (`optional(k)`, `...`) make a dict a declaration, not plain data
+        return all(is_plain(x) for x in v.values()) and not any(k is Ellipsis or type(k).__name__ == "optional" for k in v)
     return False
 
 
